@@ -487,6 +487,6 @@ def run(tier):
         "interpreted over all paths (branches, loops to a fixpoint, switch, early returns, noreturn aborts) of %d lifetime functions of Container, "
         "SparseLayout and the 11 Container-derived classes, instantiated by tu/c20_containers.cpp; callee effects by per-function summaries. "
         "Decided: release-before-overwrite, guarded release, single increase after copy, origin of stored pointers, exit consistency incl. flag, "
-        "destructors, loop ranges, allocate/size pairing, and the MemoryPool counter protocol incl. nullptr agreement and finalize. "
+        "destructors, loop ranges, allocate/size pairing, equal length of every pointer vector and its size vector at every exit, and the MemoryPool counter protocol incl. nullptr agreement and finalize. "
         "Not decided: heap bounds of index-driven accesses, writes through shared index arrays (DESIGN clause 5), emptiness of the pool for a "
         "concrete program, MKL/CUDA allocation paths (not built)." % nfun)
